@@ -73,17 +73,44 @@ func mkCall(kind, pos int) callSpec {
 	return c
 }
 
+// key variants of the exhaustive sets (the alphabet has one Add, one Find, one Update, one Remove):
+//
+//	0: every store operation acts on key 1 (on the seeded store Add(1) is a duplicate)
+//	1: seeded store: Add inserts the NEW key 2, Find/Update/Remove act on the stored key 1
+//	2: seeded store only: Add inserts key 2 and Find/Update/Remove act on that new key
+func variantKeys(variant, init int) (addKey, opKey int, ok bool) {
+	switch {
+	case variant == 0 || init == 0 && variant == 1:
+		return theKey, theKey, true
+	case variant == 1:
+		return 2, theKey, true
+	case variant == 2 && init == 1:
+		return 2, 2, true
+	}
+	return 0, 0, false
+}
+
 // allSeqs appends every sequence prefix ++ w for w over the alphabet with |w| in [lo,hi], for the given modes and both initial disks.
-func allSeqs(plan []seqSpec, prefix []int, lo, hi int, ms []int, tag string) []seqSpec {
+func allSeqs(plan []seqSpec, prefix []int, lo, hi int, ms []int, tag string, variant int) []seqSpec {
 	var rec func(cur []int)
 	rec = func(cur []int) {
 		n := len(cur) - len(prefix)
 		if n >= lo {
 			for _, m := range ms {
 				for init := 0; init < 2; init++ {
+					addKey, opKey, ok := variantKeys(variant, init)
+					if !ok {
+						continue
+					}
 					s := seqSpec{Mode: m, Init: init, Tag: tag}
 					for i, k := range cur {
-						s.Calls = append(s.Calls, mkCall(k, i))
+						c := mkCall(k, i)
+						if k == cAdd {
+							c.K = addKey
+						} else if c.K != 0 {
+							c.K = opKey
+						}
+						s.Calls = append(s.Calls, c)
 					}
 					plan = append(plan, s)
 				}
@@ -114,6 +141,28 @@ func corpus() []seqSpec {
 	out = append(out, mk(0, 0, "corpus", cBegin, cNewBtree, cCommit))
 	out = append(out, mk(2, 0, "corpus", cBegin, cNewBtree))
 	out = append(out, mk(2, 0, "corpus", cBegin, cNewBtree, cP1, cP2, cRollback))
+	// Phase1Commit run again (directly or through Commit) over work it already persisted: with only
+	// added items tracked it "succeeds" and drops them; with updates/removes or a created store it fails
+	mk2 := func(init int, cs ...callSpec) seqSpec { return seqSpec{Mode: 1, Init: init, Tag: "corpus", Calls: cs} }
+	A := func(k, v int) callSpec { return callSpec{C: cAdd, K: k, V: v} }
+	U := func(k, v int) callSpec { return callSpec{C: cUpdate, K: k, V: v} }
+	D := func(k int) callSpec { return callSpec{C: cRemove, K: k} }
+	F := func(k int) callSpec { return callSpec{C: cFind, K: k} }
+	L := func(c int) callSpec { return callSpec{C: c} }
+	out = append(out,
+		mk2(1, L(cBegin), L(cNewBtree), A(2, 102), L(cP1), L(cP1), L(cRollback), F(3), F(1)), // minimised thorough-tier mismatch
+		mk2(1, L(cBegin), L(cNewBtree), A(2, 102), L(cP1), L(cCommit)),
+		mk2(1, L(cBegin), L(cNewBtree), A(2, 102), L(cP1), L(cP1), F(2), F(1), A(2, 107), L(cP2)),
+		mk2(1, L(cBegin), L(cOpenBtree), A(2, 102), A(3, 103), L(cP1), D(3), L(cP1), L(cP1), L(cP2)),
+		mk2(1, L(cBegin), L(cOpenBtree), A(2, 102), L(cP1), A(3, 104), L(cP1), A(2, 106), L(cRollback)),
+		mk2(1, L(cBegin), L(cOpenBtree), A(2, 102), U(2, 103), L(cP1), L(cP1), L(cP2)),
+		mk2(1, L(cBegin), L(cOpenBtree), A(2, 102), L(cP1), D(2), L(cP1), L(cP2)),
+		mk2(1, L(cBegin), L(cOpenBtree), A(2, 102), U(1, 103), L(cP1), L(cP1), L(cP2)),
+		mk2(1, L(cBegin), L(cOpenBtree), A(2, 102), L(cP1), U(1, 104), L(cP1), L(cP2)),
+		mk2(1, L(cBegin), L(cOpenBtree), A(2, 102), D(1), L(cP1), L(cP1)),
+		mk2(1, L(cBegin), L(cOpenBtree), D(1), A(1, 103), L(cP1), L(cP1), L(cP2)),
+		mk2(0, L(cBegin), L(cNewBtree), A(1, 102), A(2, 103), L(cP1), L(cP1), L(cP2)),
+	)
 	// ordinary life cycles
 	for m := 0; m < 3; m++ {
 		for init := 0; init < 2; init++ {
@@ -176,36 +225,41 @@ func buildPlan(cfg *hx.RunCfg) []seqSpec {
 	plan := corpus()
 	r := hx.NewRng(cfg.Seed)
 	if cfg.Tier == "thorough" {
-		plan = allSeqs(plan, nil, 1, 4, allModes, "all<=4")
-		plan = allSeqs(plan, []int{cBegin, cNewBtree}, 3, 3, nonWriters, "nonwriter:Begin,NewBtree+3")
-		plan = allSeqs(plan, []int{cBegin, cOpenBtree}, 3, 3, nonWriters, "nonwriter:Begin,OpenBtree+3")
-		plan = allSeqs(plan, []int{cBegin, cNewBtree}, 3, 4, writerOnly, "writer:Begin,NewBtree+3..4")
-		plan = allSeqs(plan, []int{cBegin, cOpenBtree}, 3, 4, writerOnly, "writer:Begin,OpenBtree+3..4")
+		plan = allSeqs(plan, nil, 1, 4, allModes, "all<=4", 0)
+		plan = allSeqs(plan, []int{cBegin, cNewBtree}, 3, 3, nonWriters, "nonwriter:Begin,NewBtree+3", 1)
+		plan = allSeqs(plan, []int{cBegin, cOpenBtree}, 3, 3, nonWriters, "nonwriter:Begin,OpenBtree+3", 1)
+		plan = allSeqs(plan, []int{cBegin, cNewBtree}, 3, 4, writerOnly, "writer:Begin,NewBtree+3..4", 1)
+		plan = allSeqs(plan, []int{cBegin, cOpenBtree}, 3, 4, writerOnly, "writer:Begin,OpenBtree+3..4", 1)
+		plan = allSeqs(plan, []int{cBegin, cOpenBtree}, 1, 4, writerOnly, "writer:Begin,OpenBtree+1..4 (ops on the added key)", 2)
 		n := cfg.N
 		if n == 0 {
-			n = 20000
+			n = 12000
 		}
 		for i := 0; i < n; i++ {
 			plan = append(plan, randomSeq(r))
 		}
 		return plan
 	}
-	plan = allSeqs(plan, nil, 1, 2, allModes, "all<=2")
-	plan = allSeqs(plan, []int{cBegin}, 2, 2, allModes, "Begin+2")
-	plan = allSeqs(plan, []int{cBegin, cNewBtree}, 1, 2, allModes, "Begin,NewBtree+1..2")
-	plan = allSeqs(plan, []int{cBegin, cOpenBtree}, 1, 2, allModes, "Begin,OpenBtree+1..2")
-	plan = allSeqs(plan, []int{cBegin, cNewBtree}, 3, 3, writerOnly, "writer:Begin,NewBtree+3")
-	plan = allSeqs(plan, []int{cBegin, cOpenBtree}, 3, 3, writerOnly, "writer:Begin,OpenBtree+3")
+	plan = allSeqs(plan, nil, 1, 2, allModes, "all<=2", 0)
+	plan = allSeqs(plan, []int{cBegin}, 2, 2, allModes, "Begin+2", 0)
+	plan = allSeqs(plan, []int{cBegin, cNewBtree}, 1, 2, allModes, "Begin,NewBtree+1..2", 1)
+	plan = allSeqs(plan, []int{cBegin, cOpenBtree}, 1, 2, allModes, "Begin,OpenBtree+1..2", 1)
+	plan = allSeqs(plan, []int{cBegin, cNewBtree}, 3, 3, writerOnly, "writer:Begin,NewBtree+3", 1)
+	plan = allSeqs(plan, []int{cBegin, cOpenBtree}, 3, 3, writerOnly, "writer:Begin,OpenBtree+3", 1)
+	plan = allSeqs(plan, []int{cBegin, cOpenBtree}, 1, 3, writerOnly, "writer:Begin,OpenBtree+1..3 (ops on the added key)", 2)
 	// the rest of the small scope is sampled in the quick tier (all of it runs in the thorough tier)
 	n := cfg.N
 	if n == 0 {
 		n = 1000
 	}
-	pool := allSeqs(nil, []int{cBegin, cNewBtree}, 3, 3, nonWriters, "")
-	pool = allSeqs(pool, []int{cBegin, cOpenBtree}, 3, 3, nonWriters, "")
+	pool := allSeqs(nil, []int{cBegin, cNewBtree}, 3, 3, nonWriters, "", 1)
+	pool = allSeqs(pool, []int{cBegin, cOpenBtree}, 3, 3, nonWriters, "", 1)
 	plan = sample(plan, pool, n/2, r, "sampled nonwriter:Begin,New/OpenBtree+3")
-	pool = allSeqs(nil, nil, 3, 4, allModes, "")
-	plan = sample(plan, pool, n/2, r, "sampled all 3..4")
+	pool = allSeqs(nil, nil, 3, 4, allModes, "", 0)
+	plan = sample(plan, pool, n/4, r, "sampled all 3..4")
+	pool = allSeqs(nil, []int{cBegin, cOpenBtree}, 4, 4, writerOnly, "", 1)
+	pool = allSeqs(pool, []int{cBegin, cOpenBtree}, 4, 4, writerOnly, "", 2)
+	plan = sample(plan, pool, n/4, r, "sampled writer:Begin,OpenBtree+4")
 	for i := 0; i < n; i++ {
 		plan = append(plan, randomSeq(r))
 	}
@@ -322,6 +376,13 @@ func spawnAll(kind, planFile, base, outPrefix string, n int) error {
 			cmd := exec.Command(os.Args[0], "child:"+kind, planFile, base, strconv.Itoa(k), strconv.Itoa(n), fmt.Sprintf("%s_%d.json", outPrefix, k))
 			cmd.Env = append(os.Environ(), "SOP_LOG_LEVEL=error")
 			ob, err := cmd.CombinedOutput()
+			if os.Getenv("VERIF_C14_ERRS") != "" {
+				for _, l := range strings.Split(string(ob), "\n") {
+					if strings.HasPrefix(l, "ERR:") {
+						fmt.Fprintln(os.Stderr, l)
+					}
+				}
+			}
 			if os.Getenv("VERIF_C14_SLOW") != "" {
 				for _, l := range strings.Split(string(ob), "\n") {
 					if strings.HasPrefix(l, "slow") {
@@ -512,12 +573,19 @@ func runC14(cfg *hx.RunCfg) (*hx.Result, error) {
 			return nil, err
 		}
 		var rp struct {
-			Input seqSpec `json:"input"`
+			Input struct {
+				seqSpec
+				Batch []seqSpec `json:"batch"`
+			} `json:"input"`
 		}
 		if err := json.Unmarshal(raw, &rp); err != nil {
 			return nil, err
 		}
-		plan = []seqSpec{rp.Input}
+		if len(rp.Input.Batch) > 0 {
+			plan = rp.Input.Batch
+		} else {
+			plan = []seqSpec{rp.Input.seqSpec}
+		}
 	} else {
 		plan = buildPlan(cfg)
 		// Every program ends by rolling back whatever it left open (the usual `defer t.Rollback(ctx)`):
@@ -591,6 +659,24 @@ func runC14(cfg *hx.RunCfg) (*hx.Result, error) {
 		os.Remove(f1)
 		os.Remove(f2)
 	}
+	// Thorough tier: the exhaustive sets go to Coq ten sequences per case. A coqc start-up costs
+	// about as much as evaluating 2000 sequences, so 500-case shards of single sequences would spend
+	// nearly all their time starting up. A mismatching batch is replayed sequence by sequence with
+	// `./check C14 --replay` (the replay input of a batch is {"batch":[...]}).
+	batchSize := 1
+	if cfg.Tier == "thorough" && cfg.Replay == "" {
+		batchSize = 10
+	}
+	var batchTerms []string
+	var batchSeqs []seqSpec
+	nSeqCases := 0
+	flushBatch := func() {
+		if len(batchTerms) == 0 {
+			return
+		}
+		res.AddCase("BatchCase "+hx.CoqList(batchTerms), map[string]any{"batch": batchSeqs})
+		batchTerms, batchSeqs = nil, nil
+	}
 	for i, s := range plan {
 		eo, d := execs[i], disks[i]
 		begun := false
@@ -620,11 +706,25 @@ func runC14(cfg *hx.RunCfg) (*hx.Result, error) {
 			}
 		}
 		if eo.Panic == "" && d.Err == "" {
-			res.AddCase(fmt.Sprintf("SeqCase %s %s %s %s %s", coqModeNames[s.Mode], coqDisk(initDisk(s.Init)), hx.CoqList(cs), hx.CoqList(rs), coqDisk(d)), s)
+			term := fmt.Sprintf("SeqCase %s %s %s %s %s", coqModeNames[s.Mode], coqDisk(initDisk(s.Init)), hx.CoqList(cs), hx.CoqList(rs), coqDisk(d))
+			nSeqCases++
+			if batchSize > 1 && s.Tag != "corpus" && s.Tag != "random" {
+				batchTerms = append(batchTerms, term)
+				batchSeqs = append(batchSeqs, s)
+				if len(batchTerms) == batchSize {
+					flushBatch()
+				}
+			} else {
+				res.AddCase(term, s)
+			}
 		}
 		if i%997 == 0 {
 			res.Sample(map[string]any{"sequence": s.String(), "results": eo.Res, "stored_data_after": d.String()})
 		}
+	}
+	flushBatch()
+	if batchSize > 1 {
+		res.Notes = append(res.Notes, fmt.Sprintf("%d call sequences were compared with the model, packed into %d correspondence cases (batches of %d for the exhaustive sets)", nSeqCases, res.NumCases(), batchSize))
 	}
 	return res, nil
 }
